@@ -14,6 +14,7 @@ PROPS = {
         technique='property-based testing (rapidcheck), differential against an independent rules oracle',
         level_text=('Generated-input search: rapidcheck tapes -> positions (games, constructed FENs, themed pin/en-passant/check/castling '
                     'constructors); engine move SET compared with an independent mailbox oracle at every node of a lock-step tree walk. '
+                    'One root in twelve also goes through the real UCI text path (position ... moves ..., perft 1|2 of the in-process Uci::loop). '
                     'A sample of a ~10^44 domain, with generator-health gates on the narrow classes (pinned en passant, rank exposure, double check, attacked castling path).'),
         level_note=ORACLE_ASSUMPTION + '; no absence proof - a sample.',
         rule=('Roots: rapidcheck choice tapes decoded by gen/posgen.h into legal games (G-walk), constructed FEN positions '
@@ -41,7 +42,8 @@ PROPS['C02'] = dict(
     level='exploration',
     technique=PBT + '; differential (FEN after do_move) against the rules oracle',
     level_text=('Generated (position, move) pairs and whole games: the engine plays each move through parse_uci + do_move (the path '
-                '`position ... moves` uses) and its six-field FEN is compared with the oracle\'s make(); games are compared after every ply.'),
+                '`position ... moves` uses) and its six-field FEN is compared with the oracle\'s make(); games are compared after every ply; '
+                'one case in six drives the real UCI commands (position / moves / printboard) of the in-process Uci::loop; one game case in forty is a legal game of 760-1,100 plies.'),
     level_note=ORACLE_ASSUMPTION + '; FEN en-passant convention = square set after every double push (what the engine prints).',
     rule=('Cases: (a) every legal move of a generated root and of its children (budgeted), (b) G-game histories of up to 250 (quick) / 600 (thorough) plies '
           'with shuffle / capture / quiet phases. evaluations = (position, move) pairs compared on all six FEN fields. Non-trivial = distinct (position, move) '
@@ -74,7 +76,7 @@ PROPS['C04'] = dict(
     technique=PBT + '; from-scratch recomputation, transposition buckets, metamorphic key changes',
     level_text=('Every position visited in generated games (with null-move probes) is checked: incremental key == key of Position(fen()); '
                 'a process-wide map position->key / key->position over all cases enforces "same position => same key, different position => different key" '
-                '(also for pawn placement <-> pawn key); explicit move-order permutations create transpositions; metamorphic FEN edits must change the key.'),
+                '(also for pawn placement <-> pawn key); explicit move-order permutations create transpositions; children and parents are observed again after make/unmake; metamorphic FEN edits must change the key.'),
     level_note='Keys are random per process; the verdict uses only (in)equalities inside one process. A true 64-bit collision (p < 1e-7 per run) would be re-tested by the 3x replay rule.',
     rule=('evaluations = key observations. Non-trivial = distinct positions reached by at least two different paths (transposition confirmed) or probed with a null move while an en-passant square was pending.'),
     assumptions=[ORACLE_ASSUMPTION],
@@ -141,7 +143,7 @@ PROPS['C17'] = dict(
 PROPS['C18'] = dict(
     level='exploration',
     technique=PBT + '; differential against an independent implementation of the Polyglot key',
-    level_text='Engine book key vs ref/refpolyglot.h (written from the format description; constants in specification order) on generated positions: all 16 right subsets, en-passant with capturer left/right/both/none/pinned on every file, games.',
+    level_text='Engine book key vs ref/refpolyglot.h (written from the format description; constants in specification order) on generated positions: all 16 right subsets, en-passant with capturer left/right/both/none/pinned on every file, games; also taken from the played position object after nested make/unmake trees.',
     level_note=('Trusted base: ref/polyglot_random.h is a pinned transcription (specification order) of the constants at commit 8ca830c, cross-checked by the nine published '
                 'test keys through the independent routine and by the anchor constants 0,768..780; a constant already mistyped at the pinned commit and untouched by the nine vectors would go unnoticed.'),
     rule='evaluations = keys compared. Non-trivial = distinct positions with castling rights or an en-passant square. classes report how many of the 768+4+8 constants were exercised.',
@@ -157,7 +159,7 @@ PROPS['C11'] = dict(
     level='exploration', flavour='fast',
     technique='exhaustive enumeration (all squares x all relevant-occupancy subsets, all leaper/line table entries) + rapidcheck-generated full occupancies; oracle = ray walking',
     level_text=('Complete enumeration of the finite table domain: 64 squares x every subset of the bishop/rook relevant blocker mask (107,648 entries, each also with all '
-                'irrelevant bits set), all 64 knight/king/pawn entries, all 64x64 LINES / FULL_LINES entries; plus generated arbitrary 64-bit occupancies. Oracle: coordinate ray walk to the first blocker inclusive.'),
+                'irrelevant bits set), all 64 knight/king/pawn entries, all 64x64 LINES / FULL_LINES entries; plus generated arbitrary 64-bit occupancies; the complete enumeration is repeated after engine workloads (evaluation, move generation, perft, SAN) because the tables are mutable globals. Oracle: coordinate ray walk to the first blocker inclusive.'),
     level_note='Exhaustive over the table domain, so within that domain this is a decision, not a sample; arbitrary occupancies reduce to it by masking (also sampled).',
     rule=('evaluations = table entries / lookups compared. Every enumerated entry is distinct by construction (counted in classes c11:slider_entries_enumerated); '
           'distinct_nontrivial counts the distinct generated (square, full occupancy) pairs on top of the enumeration.'),
@@ -169,7 +171,7 @@ PROPS['C12'] = dict(
     level='exploration', flavour='fast',
     technique='exhaustive enumeration of all legal KPK positions against an independent retrograde solver (generated-domain differential)',
     level_text=('All legal KPK positions (both pawn colours, both sides to move, all files: 662k) are enumerated; truth comes from a retrograde least fix-point built on the rules oracle '
-                '(KPK with exact KQK / KRK successor tables for promotions; captures and minor promotions are draws); compared with bitbase::normalize+check and with the evaluator\'s win/draw band.'),
+                '(KPK with exact KQK / KRK successor tables for promotions; captures and minor promotions are draws); compared with bitbase::normalize+check and with the evaluator\'s win/draw band; a quarter of the evaluations are preceded by the evaluation of another endgame (the verdict must not depend on history).'),
     level_note=ORACLE_ASSUMPTION + '; black-pawn positions are obtained by the colour mirror of chess (ranks flipped, colours and side to move swapped).',
     rule='evaluations = positions compared; all are distinct and non-trivial by construction (exhaustive: true); classes give totals per (pawn colour, side to move, file).',
     assumptions=[ORACLE_ASSUMPTION],
@@ -202,7 +204,7 @@ PROPS['C14'] = dict(
     level='exploration', flavour='fast',
     technique=PBT + '; stateful histories on one long-lived evaluator compared with a fresh evaluator (model = fresh evaluation) + mate-band bound',
     level_text=('Generated histories of eval(P) / clear() on one evaluator: positions repeating pawn structures with other pieces, pairs of pawn structures that share a cache slot (found by search over '
-                'this process\'s keys), a structure whose key maps to slot 0 followed by clear() and pawnless positions, extreme material; each result must equal a fresh evaluator\'s and stay outside the mate band.'),
+                'this process\'s keys), a structure whose key maps to slot 0 followed by clear() and pawnless positions, extreme material, positions reached by playing moves on one Position object; each result must equal a fresh evaluator\'s, equal the first value ever seen for that position in the process, and stay outside the mate band.'),
     level_note='Slot-colliding structures depend on the per-process random keys and are searched at start-up (counted in classes); the mate band is the engine\'s own score2str definition.',
     rule='evaluations = warm-vs-fresh comparisons. Non-trivial = distinct histories containing an expected cache hit, a slot collision member, or clear-then-pawnless.',
     assumptions=[],
@@ -215,7 +217,7 @@ PROPS['C19'] = dict(
     technique=PBT + ' over generated byte-level book files (well-formed, empty, truncated); reference reader + exact record multiset + bounded statistics for the sampler',
     level_text=('Book files are generated as byte strings (0-40 records, keys from a pool of real positions so keys repeat, castling as king-takes-rook, promotions, weights incl. 0/1/65535, '
                 'tails truncated by 1-15 bytes, empty files) and loaded by the engine; the loaded record multiset per key (read through a guarded friend hook) must equal the file\'s complete records; '
-                'best = a maximal-weight move correctly decoded; random = never a zero-weight move (exact) and frequencies within 0.04 of weight/sum over 20,000 draws when sum <= 12.'),
+                'best = a maximal-weight move correctly decoded; random = never a zero-weight move (exact) and frequencies within 0.04 of weight/sum over 20,000 draws for every weight vector; one case in six loads two or three books in a row through `setoption` of the in-process Uci::loop (the book must be exactly the file just named).'),
     level_note='Statistical part: Hoeffding bound on a false alarm per comparison 2*exp(-2*20000*0.04^2) < 1e-27; an off-by-one boundary moves a probability by >= 1/12 > 2*0.04. Keys whose weights are all zero are outside the domain.',
     rule='evaluations = books loaded + policy checks. Non-trivial = distinct books with a repeated key, a zero weight, a truncated tail, or empty.',
     assumptions=['decode of a record in a position follows the Polyglot format text (castling stored as king-takes-rook, also accepted in king-two-squares form)'],
@@ -230,7 +232,8 @@ PROPS['C05'] = dict(
     level='fault_enumeration',
     technique=PBT + ' with injected faults: stop delivered after exactly k node visits, adversarial transposition-table entries; legality decided by the rules oracle',
     level_text=('Generated sessions of 1-3 searches on a shared table/evaluator: positions (incl. quiescence-explosive many-queen positions) x limits {depth, nodes, movetime incl. 0/negative, clocks, infinite} '
-                'x searchmoves subsets x faults {stop after exactly k visits (k small = before the first iteration completes), poisoned entries at the keys of the root, children and grandchildren with arbitrary score/depth/flag/move/epoch}. '
+                'x searchmoves subsets x faults {stop after exactly k visits (k small = before the first iteration completes), poisoned entries at the keys of the root, children and grandchildren with arbitrary score/depth/flag/move/epoch, both coupled}; '
+                'batches of tiny endgames (every pv replayed), castling-theme roots, roots after 780-799-ply games. '
                 'Oracle: exactly one bestmove, legal per the rules oracle and inside searchmoves; every pv replayed on the oracle.'),
     level_note=SEARCH_NOTE + ' ' + ORACLE_ASSUMPTION,
     rule='evaluations = searches run. Non-trivial = distinct (position, limits, fault) where a fault was exercised: stop delivered before iteration 1 completed, or a poisoned table.',
@@ -243,7 +246,7 @@ PROPS['C08'] = dict(
     level='exploration',
     technique=PBT + '; oracle = independent exhaustive AND/OR mate solver (proof of falsity required) and mate-in-one detection by the rules oracle',
     level_text=('Generated sessions of go depth d (d=1..4 quick / 5 thorough) on a shared table: constructed mate-in-one roots, near-mates, check-heavy positions, sparse endgames (where a node can have all moves futility-pruned), '
-                'catalogue positions, and the same root searched again at another depth. (1) if the oracle finds a mate in one the bestmove must mate; (2) a final `score mate y` must be confirmed by the exhaustive solver within y moves; '
+                'catalogue positions, the same root again, forcing back-rank batches, pawn-mate skeletons and game-flow sequences (search, follow the announced line two plies, search again on the same table). (1) if the oracle finds a mate in one the bestmove must mate; (2) a final `score mate y` must be confirmed by the exhaustive solver within y moves; '
                 'only a completed exhaustive refutation is a violation (budget exceeded = undecided, counted).'),
     level_note=SEARCH_NOTE + ' ' + ORACLE_ASSUMPTION + ' The engine counting plies instead of moves only weakens its claim and is not objected to.',
     rule='evaluations = searches. Non-trivial = distinct searches that had a mate in one available or ended with a mate announcement.',
@@ -255,7 +258,8 @@ PROPS['C09'] = dict(
     level='exploration',
     technique=PBT + '; output-shape invariants over generated limits (depth incl. > 40, searchmoves subsets on warmed tables, virtual-clock budgets)',
     level_text=('Generated (position, limits): ordinary positions with depth 1..4(6), instant-search positions (all children drawn by material) with depth 1..100, time/clock limits under a virtual clock, searchmoves = random subsets, '
-                'optionally after a full-width warm-up search of the same root on the same table. Oracle: info depth values are exactly 1,2,..,m with m <= d, bestmove is last and inside searchmoves, time-limited searches end within budget.'),
+                'optionally after a full-width warm-up search of the same root on the same table; one case in twenty is a sequence of different go commands through the real Uci::loop under the virtual clock (each must honour its own limits; clock searches within 70% of the mover\'s time). '
+                'Oracle: info depth values are exactly 1,2,..,m with m <= d, bestmove is last and inside searchmoves, time-limited searches end within budget.'),
     level_note=SEARCH_NOTE,
     rule='evaluations = searches. Non-trivial = distinct cases with depth > 40, a single-legal-move root, or searchmoves.',
     assumptions=['depth-limited searches that exceed the visit cap are counted as inconclusive'],
@@ -268,7 +272,8 @@ PROPS['C06'] = dict(
     technique='generated schedules with a harness-owned scheduler (search thread parked at hook points, stop delivered there, node-count bound on bestmove) + ThreadSanitizer on free-running generated sessions',
     level_text=('Deterministic half: an in-process Uci::loop on a reader thread (std::cin/std::cout replaced by harness stream buffers); for each generated (position, go form, park point) the search thread is parked at '
                 'thread start / go entry / after init / after the flag reset / node visit k / iteration end / before bestmove, the controller sends stop + isready, requires readyok while the search exists, releases the thread and requires the single bestmove '
-                'within 200,000 further node visits (a node-count bound, not a wall-clock bound). Race half: the same kind of sessions free-running under ThreadSanitizer; any report whose stack touches Search::stop / stop_command is a violation.'),
+                'within 20,000 further node visits (a node-count bound, not a wall-clock bound; ten times the measured unwinding maximum); a quarter of the cases stop in the middle of an enormous quiescence search; a third are free-running trials (no parking, bound counted from the readyok that proves the stop was processed). '
+                'Race half: the same kind of sessions free-running under ThreadSanitizer; any report whose stack touches Search::stop / stop_command is a violation.'),
     level_note='Only interleavings expressible through the hook points are explored; wall-clock waits are safety nets (expiry = inconclusive, counted), never the oracle. Other ThreadSanitizer reports are listed in evidence but are not violations of this property.',
     rule='evaluations = schedules executed. Non-trivial = distinct (park point, k, position, go form) where stop was delivered to a parked search thread or after the search had finished; race-half sessions are reported under coverage.race_half.',
     assumptions=['the hook callback runs on the search thread at the documented points (engine/verif_hooks.h)'],
